@@ -95,6 +95,7 @@ impl StdfsEntry {
         let mut alt = PathBuf::new();
         let mut rel = PathBuf::new();
         let mut meta = fs::symlink_metadata(&path)?;
+        let mode = meta.permissions().mode(); // the path's own mode, links included
 
         // Load link information for links
         if meta.file_type().is_symlink() {
@@ -120,7 +121,7 @@ impl StdfsEntry {
             dir: meta.is_dir(),
             file: meta.is_file(),
             link,
-            mode: meta.permissions().mode(),
+            mode,
             follow: false,
             cached: true,
         })
